@@ -68,7 +68,15 @@ func evalURIPair(c CaseURIPair) Result {
 	var ua, ub, r1, r2 sipsp.PsipURI
 	sipsp.ParseURI(a, &ua)
 	sipsp.ParseURI(b, &ub)
-	for _, f := range []int{0, 1, 2, 4, 8, 16, 32, 63, 21, 42} {
+	for k, f := range []int{0, 1, 2, 4, 8, 16, 32, 63, 21, 42} {
+		// the output structures are the caller's: they may have been used before
+		switch k % 3 {
+		case 1:
+			sipsp.ParseURI([]byte("sips:olduser:oldpass@old.example.org:5071;transport=tls;maddr=1.2.3.4?subject=old&x=y"), &r1)
+			r2 = r1
+		case 2:
+			r1, r2 = ub, ua
+		}
 		g1, ge1, gw1 := sipsp.URIParseCmp(a, b, sipsp.URICmpFlags(f), &r1, &r2)
 		g2, ge2, gw2 := sipsp.URIRawCmp(a, b, sipsp.URICmpFlags(f))
 		if g1 != ab[f] || g2 != ab[f] || ge1 != 0 || ge2 != 0 || gw1 != 0 || gw2 != 0 {
@@ -143,6 +151,20 @@ func genURIPair(t *rapid.T) CaseURIPair {
 	relk := weighted(t, "rel_k", 4, 6, 2)
 	if relk == 1 && asciiLower(a.Scheme) == "tel:" {
 		relk = 0 // tel: reports the number as the user: the component-change table below is for sip/sips
+	}
+	// a single-component change is applied on top of an equivalent variant half of the time,
+	// so that e.g. a changed parameter value meets a re-cased parameter name
+	if relk == 1 && rapid.Bool().Draw(t, "change_on_variant") {
+		b.Params = permuteKVs(t, b.Params, "pperm")
+		b.Hdrs = permuteKVs(t, b.Hdrs, "hperm")
+		b.Host = recase(t, string(a.Host))
+		for i := range b.Params {
+			b.Params[i].Name = recase(t, string(b.Params[i].Name))
+			b.Params[i].Val = recase(t, string(b.Params[i].Val))
+		}
+		for i := range b.Hdrs {
+			b.Hdrs[i].Name = recase(t, string(b.Hdrs[i].Name))
+		}
 	}
 	switch relk {
 	case 0:
@@ -294,6 +316,7 @@ type CaseReloc struct {
 	U    B   `json:"uri"`
 	Off  int `json:"off"`  // target offset; -1 = the largest legal one (text ends at 65,535)
 	Span int `json:"span"` // span length offered at the target
+	Pre  int `json:"pre"`  // > 0: the parsed URI is first moved to this offset (exact span), then relocated from there
 }
 
 func lastNonEmptyEnd(u *sipsp.PsipURI) (int, bool) {
@@ -367,12 +390,20 @@ func evalReloc(c CaseReloc) Result {
 	if tr != want {
 		return viol("Truncate() changed more (or less) than Params and Headers: %+v, want %+v\nuri=%s", tr, want, c.U)
 	}
+	// a URI that already lives at an offset > 0 (relocated before) must behave the same
+	if c.Pre > 0 && c.Pre+n <= 65535 {
+		if !u.AdjustOffs(sipsp.PField{Offs: sipsp.OffsT(c.Pre), Len: sipsp.OffsT(n)}) {
+			return viol("AdjustOffs to offset %d with the exact span %d refused\nuri=%s", c.Pre, n, c.U)
+		}
+		in = append(bytes.Repeat([]byte{'%'}, c.Pre), in...)
+		classes = append(classes, "relocated-twice")
+	}
 	// relocation
 	target := make([]byte, off+maxInt(span, n))
 	for i := range target {
 		target[i] = '#'
 	}
-	copy(target[off:], in)
+	copy(target[off:], in[len(in)-n:])
 	moved := u
 	res := moved.AdjustOffs(sipsp.PField{Offs: sipsp.OffsT(off), Len: sipsp.OffsT(span)})
 	if span >= n {
@@ -392,7 +423,7 @@ func evalReloc(c CaseReloc) Result {
 			if p.a.Len == 0 {
 				continue
 			}
-			if int(p.b.Offs)+int(p.b.Len) > len(target) || !bytes.Equal(p.b.Get(target), p.a.Get(in)) || int(p.b.Offs) != int(p.a.Offs)+off {
+			if int(p.b.Offs)+int(p.b.Len) > len(target) || !bytes.Equal(p.b.Get(target), p.a.Get(in)) || int(p.b.Offs)-off != int(p.a.Offs)-int(u.Scheme.Offs) {
 				return viol("AdjustOffs(%d,%d): %s moved to (%d,%d) which does not denote the same bytes %q at the new position\nuri=%s", off, span, p.name, p.b.Offs, p.b.Len, p.a.Get(in), c.U)
 			}
 		}
@@ -440,6 +471,30 @@ var C18Reloc = Register(&Check[CaseReloc]{
 			c.Span = n + rapid.IntRange(0, 40).Draw(t, "extra")
 		default:
 			c.Span = maxInt(0, n-1)
+		}
+		if rapid.IntRange(0, 2).Draw(t, "pre") == 0 {
+			c.Pre = rapid.IntRange(1, 3000).Draw(t, "preoff")
+		}
+		return c
+	},
+	Eval: evalReloc,
+})
+
+// C11Reloc: the relocation clause of C11 - a parsed URI whose text starts at offset k > 0
+// relocates exactly like the same URI at offset 0.
+var C11Reloc = Register(&Check[CaseReloc]{
+	Prop: "C11", Name: "C11.reloc",
+	Gen: func(t *rapid.T) CaseReloc {
+		c := CaseReloc{U: genURIFull(t)}
+		n := len(c.U)
+		c.Pre = pick(t, "pre", 1, 2, 7, 100, 4000, 65535-n)
+		c.Off = pick(t, "off", 0, 1, 5, 300, 65535-n-3, -1)
+		if c.Off > 65535-n {
+			c.Off = 0
+		}
+		c.Span = pick(t, "span", n, n, n+1, n+9, n-1, 0)
+		if c.Span < 0 {
+			c.Span = 0
 		}
 		return c
 	},
